@@ -13,6 +13,21 @@ From CH Require Import model.Sx model.Columns model.Block model.TypeStr.
 Open Scope N_scope.
 Open Scope list_scope.
 
+(* numbers of up to 64 bits are decimal atoms; wider ones (128/256-bit integers, FixedStringN as one
+   element) are xHEX atoms: the little-endian bytes without trailing zero bytes *)
+Fixpoint le_bytes (fuel : nat) (n : N) : bytes :=
+  match fuel with
+  | O => []
+  | S f => if n =? 0 then [] else (n mod 256) :: le_bytes f (n / 256)
+  end.
+Definition anw (n : N) : sx :=
+  if n <? 18446744073709551616 then an n else ab (le_bytes (S (N.to_nat (N.size n) / 8)) n).
+Definition get_anw (x : sx) : option N :=
+  match get_an x with
+  | Some n => Some n
+  | None => option_map le_get (get_ab x)
+  end.
+
 (* ---- parsing ------------------------------------------------------------------------- *)
 Definition get_nat (x : sx) : option nat := option_map N.to_nat (get_an x).
 
@@ -77,7 +92,7 @@ Fixpoint get_val (fuel : nat) (x : sx) : option val :=
     if is_sym x "unit" then Some VUnit else
     match x with
     | L (h :: rest) =>
-      if is_sym h "n" then match rest with [a] => option_map VN (get_an a) | _ => None end
+      if is_sym h "n" then match rest with [a] => option_map VN (get_anw a) | _ => None end
       else if is_sym h "bool" then match rest with [a] => option_map VBool (get_abool a) | _ => None end
       else if is_sym h "b" then match rest with [a] => option_map VB (get_ab a) | _ => None end
       else if is_sym h "pt" then
@@ -106,7 +121,7 @@ Fixpoint get_val (fuel : nat) (x : sx) : option val :=
   end.
 
 Definition get_ns (x : sx) : option (list N) :=
-  match x with L l => map_opt get_an l | _ => None end.
+  match x with L l => map_opt get_anw l | _ => None end.
 
 Fixpoint get_cdata (fuel : nat) (x : sx) : option cdata :=
   match fuel with
@@ -164,11 +179,11 @@ Fixpoint get_cdata (fuel : nat) (x : sx) : option cdata :=
   end.
 
 (* ---- printing ------------------------------------------------------------------------ *)
-Definition pr_ns (l : list N) : sx := L (map an l).
+Definition pr_ns (l : list N) : sx := L (map anw l).
 
 Fixpoint pr_val (v : val) : sx :=
   match v with
-  | VN n => L [asym "n"; an n]
+  | VN n => L [asym "n"; anw n]
   | VBool b => L [asym "bool"; abool b]
   | VB b => L [asym "b"; ab b]
   | VUnit => asym "unit"
@@ -182,7 +197,7 @@ Fixpoint pr_val (v : val) : sx :=
 Fixpoint pr_cdata (d : cdata) : sx :=
   match d with
   | DFix vs => L [asym "fix"; pr_ns vs]
-  | DBool vs => L (asym "bool" :: map an vs)
+  | DBool vs => L (asym "bool" :: map (fun b => an (if b =? 0 then 0 else 1)) vs)   (* observed through Go's bool *)
   | DBytes vs => L (asym "bytes" :: map ab vs)
   | DFixedStr b => L [asym "fstr"; ab b]
   | DNothing n => L [asym "nothing"; an n]
